@@ -582,6 +582,11 @@ def line_count(ctx):
     inc = [s for s in walk_func(mr) if isinstance(s, ast.AugAssign) and dotted(s.target) == "self.lineno"]
     ctx.require(inc, "match_reg does not advance self.lineno")
     ok = P.has(mr, "$mp = self.match_position\n...\nif $m:\n    ...\n    self.lineno += self.text[$mp:self.match_position].count('\\n')\n    ...") or P.has(mr, "($s, $e) = $m.span()\n...\nself.lineno += self.text[$s:self.match_position].count('\\n')")
+    if not ok:
+        # the new cursor spelled out again instead of read back: text[old : <the expression just stored in match_position>]
+        for _n, env_ in P.find(mr, "self.match_position = $new\n...\nself.lineno += self.text[$mp:$new].count('\\n')"):
+            mpn = env_["mp"][1]
+            ok = isinstance(mpn, ast.Name) and P.has(mr, "%s = self.match_position\n..." % mpn.id)
     ctx.check(ok, "lineno-span", db.where(inc[0]),
               "line counter advanced by `%s`, not by the newlines of the consumed span text[old cursor : new cursor]" % src(inc[0].value), "newlines of text[old cursor : new cursor]")
     mp = [s for s in walk_func(mr) if isinstance(s, ast.Assign) and isinstance(s.targets[0], ast.Name) and src(s.value) == "self.match_position"]
@@ -593,6 +598,8 @@ def line_count(ctx):
     forms = [
         "$cp = $mp - 1\nif $cp >= 0 and $cp < self.textlength:\n    $cp = self.text[:$cp + 1].rfind('\\n')\nself.matched_charpos = $mp - $cp",
         "$cp = self.text[:$mp].rfind('\\n')\nself.matched_charpos = $mp - $cp",
+        # text[:cp + 1] with cp = mp - 1 written as text[:mp]
+        "$cp = $mp - 1\nif $cp >= 0 and $cp < self.textlength:\n    $cp = self.text[:$mp].rfind('\\n')\nself.matched_charpos = $mp - $cp",
         "$cp = self.text.rfind('\\n', 0, $mp)\nself.matched_charpos = $mp - $cp",
         "self.matched_charpos = $mp - self.text.rfind('\\n', 0, $mp)",
     ]
